@@ -584,6 +584,71 @@ def table_findings(ctx):
     return notes
 
 
+def cli_family(ctx, libdir):
+    """the command-line front end (bin/hawk.c) is input too: option values reach hawk_addgbl*/hawk_rtx_setgbl/FS/RS set-up
+    before any script runs. Every combination below must end in a normal exit (0, or an error message and 255) —
+    never a signal, a sanitizer report or a hang. Deterministic core + seeded random combinations."""
+    hawk = os.path.join(ctx.scratch, "hawk.cli")
+    shutil.copy2(os.path.join(libdir, "hawk"), hawk)
+    names = ["OFS", "NF", "FS", "RS", "ORS", "NR", "FNR", "SUBSEP", "CONVFMT", "OFMT", "RSTART", "RLENGTH", "FILENAME", "IGNORECASE",
+             "STRIPRECSPC", "STRIPSTRSPC", "NUMSTRDETECT", "ENVIRON", "ARGV", "ARGC", "x", "x", "_y1", "1x", "", "length", "BEGIN", "function",
+             "getline", "sys::x", "a b", "\u00e9", "SCRIPTNAME", "OFILENAME", "substr", "x" * 300]
+    values = ["", ":", "3", "-1", "0", "1e3", "abc", " ", "\\", "a(", "[", "99999999999999999999", "2.5", "\n", "x" * 70, "\u00e9"]
+    progs = ["BEGIN { print 1, 2 }", "{ print $1, NF; $2 = 1; print }", "BEGIN { x[1] = 1; print length(x) }", "END { print NR, x }",
+             "BEGIN { print ENVIRON[1]; print ARGV[0] }", "function f(a) { return a } BEGIN { print f(x) }"]
+    cases = []
+    for n in names:
+        for v in (":", "3", "-1", "a("):
+            cases.append((["-v", "%s=%s" % (n, v)], progs[names.index(n) % len(progs)]))
+    for n in ("OFS", "NF", "x"):
+        cases.append((["-v", n], progs[0]))                       # no '='
+        cases.append((["-v", "%s=1" % n, "-v", "%s=2" % n], progs[3]))   # the same name twice
+    for f in ("", " ", ",", "ab+", "a(", "[", "\\t", "?", "?a", "t", "\u00e9"):
+        cases.append((["-F", f], progs[1]))
+        cases.append((["-F", f, "-v", "FS=:"], progs[1]))
+    rng = ctx.rng
+    for _ in range(120 if ctx.tier == "quick" else 1500):
+        opts = []
+        for _ in range(rng.randrange(1, 4)):
+            k = rng.random()
+            if k < 0.7:
+                opts += ["-v", "%s=%s" % (rng.choice(names), rng.choice(values))]
+            elif k < 0.9:
+                opts += ["-F", rng.choice(values)]
+            else:
+                opts += [rng.choice(["--numstrdetect=off", "--flexmap=on", "--tolerant=on", "--strictnaming=on", "-t", "-n"])]
+        cases.append((opts, rng.choice(progs)))
+    inp = b"a,b c\n1:2:3\n\n"
+
+    def one_cli(c):
+        opts, prog = c
+        rc, out, err = C.sh(["timeout", "-s", "KILL", "20", hawk] + opts + [prog], timeout=30, input_=inp, env=ENV, cwd=ctx.scratch)
+        e = err.decode(errors="replace")
+        bad = None
+        if rc in (-9, 137):
+            bad = "wedge:cli (no exit within 20 s)"
+        elif "AddressSanitizer" in e or "runtime error:" in e:
+            m = re.search(r"in (\w+) ", e)
+            bad = "crash:cli:" + (m.group(1) if m else "sanitizer")
+        elif rc < 0 or 128 <= rc < 255:      # 255 is hawk's own error exit (after printing the error)
+            bad = "crash:cli:signal rc=%d" % rc
+        return c, bad, e
+    from concurrent.futures import ThreadPoolExecutor
+    with ThreadPoolExecutor(NCPU) as ex:
+        res = list(ex.map(one_cli, cases))
+    hits = {}
+    for c, bad, e in res:
+        if bad:
+            hits.setdefault(bad, []).append((c, e))
+    for sig, lst in sorted(hits.items()):
+        (opts, prog), e = min(lst, key=lambda x: len(" ".join(x[0][0])))
+        cmdline = "hawk " + " ".join("'%s'" % o for o in opts) + " '%s'" % prog
+        ctx.problem("impl", "[%s] the command-line front end fails on %d option combination(s); smallest: %s" % (sig, len(lst), cmdline),
+                    "# run the sanitized CLI built from /repo (vlib.common.build_libhawk) with stdin 'a,b c\\n1:2:3\\n\\n':\n%s\n# stderr:\n%s\n" % (cmdline, e[-3000:]),
+                    found_input=True, sig=sig)
+    return len(cases), len({tuple(c[0]) for c in cases})
+
+
 def run(ctx):
     t0 = time.time()
     xprocs = start_extractors(ctx)
@@ -702,6 +767,10 @@ def run(ctx):
             sig, len(viol[sig]), c["src"][:300].decode(errors="replace"), c["traits"], c["inp"][:40], describe(r)),
             replay_text(c, r, "signature %s" % sig), found_input=True, sig=sig)
 
+    # ---- the command-line front end ----
+    ncli, ncli_distinct = cli_family(ctx, libdir)
+    evaluations += ncli
+
     # ---- correspondence of the guard models ----
     th.join()
     if "e" in proof_box:
@@ -746,13 +815,13 @@ def run(ctx):
     cov = dict(outcome_classes=classes, feature_groups={g: dict(distinct=a[0], uses=a[1], uses_in_programs_that_ran=a[2]) for g, a in sorted(groups.items())},
                features_never_run=sorted(k for k, v in feats.items() if v[1] == 0)[:40], builtins_covered=len([k for k in feats if k.startswith("fn:") and feats[k][1] > 0]),
                builtins_total=len(G.BUILTINS), guard_probes=cdist, guard_probe_differences=len(diffs), violation_signatures={k: len(v) for k, v in viol.items()},
-               batches=submitted, lost_results=lost_total, feature_uses=fdist if ctx.tier == "thorough" else "(thorough tier only)")
+               batches=submitted, lost_results=lost_total, cli_option_cases=ncli, cli_option_distinct=ncli_distinct, feature_uses=fdist if ctx.tier == "thorough" else "(thorough tier only)")
     return C.finish(ctx, [proof], evaluations, len(nontriv),
                     "programs = corpus + seeded batches of 120 (50%% grammar programs over every statement/operator/value type/builtin/side-effect-free module "
                     "function with mismatched argument types, 20%% templates aimed at the anchored sites with edge operands (incl. stack-pressure and failing write-back families), 30%% byte/token mutations) x 10 console "
                     "input shapes x 5 trait sets, run in-process under ASan+UBSan+asserts with a statement heartbeat and halt-then-SIGKILL watchdog; oracle = "
                     "signal / sanitizer report / abort / failure with errnum 0 or empty message / halt unanswered for %d ms; plus guard-model probes compared "
-                    "with the Lean driver. distinct_nontrivial = distinct (program, traits, input) that parsed and executed >= 3 statements" % HARD_MS,
+                    "with the Lean driver; plus the CLI front end run with -v/-F/option combinations (built-in, duplicate, reserved and malformed names; regex and empty separators). distinct_nontrivial = distinct (program, traits, input) that parsed and executed >= 3 statements" % HARD_MS,
                     samples, extra_cov=cov,
                     trusted=["memory safety of the unmodelled interpreter is exhibited only by the sanitizer campaign (sampling); the theorems cover the guards",
                              "translators extract/{fnc_dispatch,loops,div_sites,flag_sites,stack_sites}.py + clang-14 AST (fail closed)",
